@@ -154,7 +154,12 @@ def check(prop, tier, seed, jobs):
     manifest = json.load(open(os.path.join(VERIF, 'MANIFEST.json')))
     entry = next((c for c in manifest['checks'] if c['property_id'] == prop), None)
     level = entry['level_claimed']['category'] if entry else 'other'
-    hs = [h for h in run.HARNESSES.values() if prop in h.props or prop in h.also]
+    bp0 = os.path.join(VERIF, 'baseline', 'obligations.json')
+    tagged = set()
+    if os.path.exists(bp0):
+        # harnesses that carry a clause explicitly tagged with this property (recorded in the committed baseline)
+        tagged = {c.split('/')[0] for c in json.load(open(bp0)).get(prop, {}).get('clauses', [])}
+    hs = [h for h in run.HARNESSES.values() if prop in h.props or prop in h.also or h.name in tagged]
     run.KNOWN_REGIONS.update((e.get('witness') or {}).get('region') for e in load_known() if e.get('status') == 'open' and (e.get('witness') or {}).get('region'))
     tasks = [('verify', h.name, None) for h in hs]
     for h in hs:
